@@ -8,6 +8,7 @@ COQ_MODULE = "Prop_C03"
 THEOREMS = ['C03_every_history', 'C03_guard_drop_releases_all', 'C03_unlock_step', 'C03_scoped_restores', 'C03_no_self_wait', "C03_every_schedule_waits_with_own_locks_only", "C03_every_schedule_key_back_holds_nothing"]
 CASE_MODULES = ["Pf_Hist", "Monitors", "Conc", "BMonitors"]
 CHECK_WITHOUT_PROOF = True
+SHRINK_GUARD = 0      # which of the booleans evaluated with the verdict certifies the theorem's hypotheses
 TRUSTED = common.TRUSTED_COMMON
 ASSUMPTIONS = common.ASSUME_COMMON
 RULE = 'random API histories (1-3 threads, 4-14 calls, API-call-atomic) over a random universe of single locks, poisonable wrappers and collections of every kind / container / nesting depth <= 2 sharing leaves, with random holds of other threads present from the start; vocabulary: every acquisition flavour, unlock / drop / forget, panics; observation = hold table after every call + blocked requests; non-trivial = at least three successful calls incl. a release; distinct = scenario text; plus interleaved (Level B) programs of 2-4 threads at raw-operation granularity (as for C01 / C09, half of them with a retrying collection under contention), judged by the replaying monitor of BMonitors.v (holds per thread at every call return)'
